@@ -361,16 +361,17 @@ Section Connect.
   (* ---- the stream entry points (pyatv/protocols/raop/protocols/airplayv1.py, airplayv2.py):
      AirPlayV1.setup / play_url run pair_verify(credentials, connection).verify_credentials()
      and then use the accessory (ANNOUNCE/SETUP or /play); AirPlayV2.setup / play_url go through
-     verify_connection (exception mapping, keys).  [v1_mapped] (Gen.v, read off the source): the v1
-     entry points use verify_connection as well.  Credentials of type HAP. *)
+     verify_connection (exception mapping, keys).  [v1_mapped] / [v1_keys] (Gen.v, read off the
+     source): the v1 entry points map the exceptions like verify_connection / install keys (both
+     true when they call verify_connection themselves).  Credentials of type HAP. *)
   Inductive version := V1 | V2.
   Record entry := { e_raised : option exn; e_used : bool; e_keys : bool }.
 
-  Definition stream_entry (v1_mapped : bool) (v : version) (k : pcfg) (h : handler) (c : creds)
+  Definition stream_entry (v1_mapped v1_keys : bool) (v : version) (k : pcfg) (h : handler) (c : creds)
              (f1 : option exn) (pd : bytes) (f3 : option exn) (pd4 : bytes) : entry :=
     let mapped := match v with V2 => true | V1 => v1_mapped end in
     match verify_credentials x25519 hkdf dec enc pk_load sig_ok sign k AirPlay h c f1 pd f3 pd4 with
-    | Accept _ => {| e_raised := None; e_used := true; e_keys := mapped |}
+    | Accept _ => {| e_raised := None; e_used := true; e_keys := match v with V2 => true | V1 => v1_keys end |}
     | Raises e => {| e_raised := Some (if mapped then surface AirPlay e else e); e_used := false; e_keys := false |}
     end.
 
@@ -509,11 +510,11 @@ Scheme Equality for version.
 Definition stobs := (version * option exn * option bytes * option exn * bool * bool)%type.
 Definition stcase := (handler * creds * tables * bytes * bytes * list stobs)%type.
 Definition t_stream T := stream_entry (o_x T) (o_hkdf T) (o_dec T) (o_enc T) (o_pk T) (o_sig T) (o_sign T).
-Definition check_stobs (v1m : bool) (cfg : proto -> pcfg) T h c pd pd4 (o : stobs) : bool :=
+Definition check_stobs (v1m v1k : bool) (cfg : proto -> pcfg) T h c pd pd4 (o : stobs) : bool :=
   let '(v, raw, m3, surf, used, k) := o in
-  let r := t_stream T v1m v (cfg AirPlay) h c None pd None pd4 in
+  let r := t_stream T v1m v1k v (cfg AirPlay) h c None pd None pd4 in
   opt_beq exn_beq (raised_of (t_verify_credentials T (cfg AirPlay) AirPlay h c None pd None pd4)) raw
   && opt_beq bytes_beq (m3_sent (o_x T) (o_hkdf T) (o_dec T) (o_enc T) (o_pk T) (o_sig T) (o_sign T) (cfg AirPlay) AirPlay h c None pd) m3
   && opt_beq exn_beq (e_raised r) surf && Bool.eqb (e_used r) used && Bool.eqb (e_keys r) k.
-Definition check_stream (v1m : bool) (cfg : proto -> pcfg) (x : stcase) : bool :=
-  let '(h, c, T, pd, pd4, obs) := x in forallb (check_stobs v1m cfg T h c pd pd4) obs.
+Definition check_stream (v1m v1k : bool) (cfg : proto -> pcfg) (x : stcase) : bool :=
+  let '(h, c, T, pd, pd4, obs) := x in forallb (check_stobs v1m v1k cfg T h c pd pd4) obs.
